@@ -26,6 +26,21 @@ CLAIMED = {
         "numba paths not exercised (numba absent).",
         "TLA+ refinement model checked with TLC + spec-to-code replay + trace validation",
     ),
+    "C03": (
+        "7/C03",
+        "AnomalySets.tla, Capa.tla, Trace_Capa.tla",
+        "TLC checks that the implementation-shaped model of run_base_capa (three penalise_savings "
+        "branches, arg-max start selection, delayed pruning, max-length pruning, get_anomalies) refines "
+        "the set-theoretic optimum over all sets of disjoint admissible anomalies for every sub-additive "
+        "non-negative saving table, penalty and (M, Mx) within the constants; every enumerated case is "
+        "replayed through run_base_capa and MVCAPA with table savings and callable penalties (scores of "
+        "every prefix, reported set in the set of optimal sets, ignore_point_anomalies), and recorded "
+        "CAPA/MVCAPA runs with built-in savings and all penalty families are validated by TLC "
+        "(Trace_Capa: prefix optimum, re-evaluation, monotone scores).",
+        "Bounded: exhaustive for n<=5 (p=1), n<=4 (p=2), n=2 (p=3); sampled to n=10, p<=4; built-in "
+        "savings judged on quantised recorded tables (tol*unit = rounding); numba paths not exercised.",
+        "TLA+ refinement model checked with TLC + spec-to-code replay + trace validation",
+    ),
 }
 
 NOT_YET = {}
